@@ -159,13 +159,14 @@ Qed.
 
 Lemma rf_K3 f s r : rf_spec f s r -> K3 s -> K3 (fst r).
 Proof.
-  intros H J; destruct H; try (apply hm_K3 in H; [|exact J]); unfold K3 in *; ep_cbn_all; ep_cbn; assumption.
+  intros H J; destruct H; try (apply hm_K3 in H; [|exact J]); unfold K3 in *; ep_cbn_all; ep_cbn;
+    repeat brk_any; first [assumption | apply Forall_nil].
 Qed.
 
 Lemma rf_K1 f s r : rf_spec f s r -> wf_frame f -> K1 s -> K1 (fst r).
 Proof.
   intros H W J; destruct H; try (apply hm_K1 in H; [|exact W|exact J]); unfold K1 in *; ep_cbn_all; ep_cbn;
-    assumption.
+    repeat brk_any; first [assumption | apply Forall_del_all; assumption].
 Qed.
 
 Lemma rf_conf f s r :
@@ -176,7 +177,7 @@ Proof.
   7-9: (apply hm_conf in H; [|exact W|exact J|exact Hb]; cbn [fst] in *;
         first [exact H | eapply ext_trans; [exact H|]; apply ext_same; ep_cbn; reflexivity]).
   all: unfold ext_by; ep_cbn; repeat brk_any;
-       ext_close ltac:(first [ apply conf_state | apply conf_closed ]).
+       ext_close ltac:(first [ apply conf_state | apply conf_closed | apply conf_flush ]).
 Qed.
 
 (** ** The receive loop *)
@@ -245,8 +246,8 @@ Ltac conf_all :=
         | apply conf_flush | apply conf_sstarted; cbn [snd] in *; first [assumption | lia] ].
 Ltac k18_leaf :=
   try match goal with J : Forall _ (_ :: _) |- _ => inversion J; subst end;
-  split; [split; [ unfold K1; ep_cbn; k_solve | ep_cbn; assumption
-                 | unfold K3; ep_cbn; try match goal with H : pend_start _ = _ |- _ => rewrite H end; k_solve
+  split; [split; [ unfold K1; ep_cbn; repeat brk_any; k_solve | ep_cbn; assumption
+                 | unfold K3; ep_cbn; repeat brk_any; try match goal with H : pend_start _ = _ |- _ => rewrite H end; k_solve
                  | unfold rx_acc_len in *; ep_cbn; lia ]
          | unfold ext_by; ep_cbn; repeat brk_any; ext_close conf_all ].
 
